@@ -541,6 +541,8 @@ impl Subscription {
                     *from_sequence = sequence + 1;
                 }
             }
+            #[cfg(feature = "verif")]
+            crate::verif::hold("sub:history:batch", partition_id as u64, 0).await;
         }
 
         Ok(())
@@ -627,6 +629,8 @@ impl Subscription {
                                 **from_sequence = sequence + 1;
                             }
                         }
+                        #[cfg(feature = "verif")]
+                        crate::verif::hold("sub:history:batch", 0, 1).await;
                     }
                 }
                 FromSequences::AllPartitions(from_sequence) => {
@@ -702,6 +706,8 @@ impl Subscription {
                     *from_version = version + 1;
                 }
             }
+            #[cfg(feature = "verif")]
+            crate::verif::hold("sub:history:batch", partition_id as u64, 2).await;
         }
 
         Ok(())
